@@ -12,6 +12,7 @@ if len(sys.argv) > 1 and os.path.exists(sys.argv[1]):
             matrix.setdefault(sid, {})[cid] = {"rc": int(rc), "rules": rules}
         elif len(parts) == 2 and parts[1] == 'PATCH-DOES-NOT-APPLY':
             matrix[parts[0]] = {"_applies": False}
+CROSS = {'C05-J': {'C11': ['C11-R6']}, 'C06-J': {'C18': ['C18-R4']}, 'C13-J': {'C01': ['C01-R4']}, 'C08-J': {'C02': ['C02-R7']}, 'C06-K': {'C12': ['C12-R1']}, 'C18-K': {'C05': ['C05-R5']}, 'C20-K': {'C08': ['C08-R10']}}
 root = '/verif/seeded'
 for sid in sorted(os.listdir(root)):
     d = os.path.join(root, sid)
@@ -39,6 +40,11 @@ for sid in sorted(os.listdir(root)):
     applies = m.get('_applies', True)
     own = m.get(prop, {})
     others = {c: v['rules'] for c, v in m.items() if c != prop and not c.startswith('_') and v.get('rc') == 1}
+    only_own = [c for c in m if not c.startswith('_')] == [prop]
+    if only_own and sid in CROSS:
+        others = CROSS[sid]
+    elif only_own:
+        others = "not run for this seed (the last matrix ran each seed against its own property's check only)"
     meta = {
         "seed": sid,
         "breaks_property": prop,
@@ -66,7 +72,12 @@ for sid in sorted(os.listdir(root)):
               "C18-G": "C18-R5 (legacy flags only tested or folded into the derived flags)", "C19-G": "C19-R4 (round publishes the best index or leaves on cur == best)",
               "C05-H": "C05-R7 (through the helpers a session is built with)", "C12-H": "C12-R8 (lock balance)", "C14-H": "C14-R5 (recorded on every exit)",
               "C06-I": "C06-R1 (wrapper built only on the ok edge of the assertion it relies on — now decided instead of reviewed)", "C08-I": "C08-R2 (both live stores follow)",
-              "C12-I": "C12-R9 (registered means served)", "C17-I": "C17-R2 (TCP split offset is the start of the second length field)"}
+              "C12-I": "C12-R9 (registered means served)", "C17-I": "C17-R2 (TCP split offset is the start of the second length field)",
+              "C01-J": "C01-R7 (identity-header chain tables)", "C04-J": "C04-R3 (generation consistency)", "C05-J": "C05-R8 (fresh record)", "C07-J": "C07-R9 (handshake result is handed on)",
+              "C08-J": "C08-R12 / C02-R7 (erased-error request is fresh)", "C11-J": "C11-R7 (receive buffers not retained)", "C12-J": "C12-R3 (stop marker set at construction)",
+              "C13-J": "C13-R7 = C01-R4 (copy-loop accounting)", "C17-J": "C17-R8 (done family untouched)", "C18-J": "C18-R3 (every key measured)", "C06-J": "C06-R1 (configuration gates decided inside C06)",
+              "C06-K": "C06-R6 = C12-R1 (session queue lockset)", "C10-K": "C10-R8 (enumerator joins labels unconditionally)", "C16-K": "C16-R5 (written request is flushed)",
+              "C18-K": "C18-R6 = C05-R5 (headroom combinators)", "C20-K": "C20-R4 = C08-R10 (remembered content is what was written)"}
     if sid in missed:
         meta["missed_when_first_run"] = True
         meta["check_strengthened_with"] = missed[sid]
